@@ -3,7 +3,7 @@
 Symbolic: the characters of the inserted layout (filler slots over {space, tab}, comment bodies of
 arbitrary characters, a case choice per letter of mnemonics / suffixes / index registers / hex
 digits) and the data values of the templates.  Enumerated: template programs x insertion
-position x kind of change; statement runs moved into an .include file (runs of <= 2 lines also into a file without a final newline)."""
+position x kind of change; statement runs moved into an .include file; the main file and an included run with CRLF / CR line ends through the file API (runs of <= 2 lines also into a file without a final newline)."""
 import re
 
 import z3
@@ -16,7 +16,7 @@ PROPERTY = "C16"
 
 META = {
     "bounds": {
-        "quick": "18 template programs (one of realistic size: macros applying macros, named scope, three `*=` blocks, relocated part) + the 2 repository samples; one layout change at a time at every applicable position: indentation (1-2 chars of {space,tab}), trailing spaces (1-2), spaces next to operators/commas/brackets, blank lines, full-line and end-of-line ; comments and /* */ comments with 0, 1 and 2 symbolic body characters, comments spelling keywords / braces (`; else`, `; }`, `; {`, `/* else */`, `; .if 1 {`), per-letter case of every mnemonic / suffix / index register / hex literal; every contiguous balanced statement run of <= 5 lines (whole macro definitions / scopes included) moved into an .include file (runs of <= 2 lines also into a file without a final newline); data values symbolic",
+        "quick": "18 template programs (one of realistic size: macros applying macros, named scope, three `*=` blocks, relocated part) + the 2 repository samples; one layout change at a time at every applicable position: indentation (1-2 chars of {space,tab}), trailing spaces (1-2), spaces next to operators/commas/brackets, blank lines, full-line and end-of-line ; comments and /* */ comments with 0, 1 and 2 symbolic body characters, comments spelling keywords / braces (`; else`, `; }`, `; {`, `/* else */`, `; .if 1 {`), per-letter case of every mnemonic / suffix / index register / hex literal; every contiguous balanced statement run of <= 5 lines (whole macro definitions / scopes included) moved into an .include file; the main file and an included run with CRLF / CR line ends through the file API (runs of <= 2 lines also into a file without a final newline); data values symbolic",
         "thorough": "same with 3 symbolic comment characters, pairs of simultaneous changes (VERIF_SEED-drawn 300 pairs), include runs of <= 8 lines",
     },
     "outside": ["compositions of more than two changes", "layout changes not listed in the property (tabs before operands, spaces before ':' ...)", "comment bodies longer than 3 characters"],
@@ -148,6 +148,18 @@ def jobs(tier, seed):
                 out.append({"id": f"t{ti:02d}/include/{a}-{b}", "fam": "include", "tpl": ti, "a": a, "b": b})
                 if b - a <= 2:
                     out.append({"id": f"t{ti:02d}/include-nonl/{a}-{b}", "fam": "include", "tpl": ti, "a": a, "b": b, "nonl": True})
+    # line ends: a project kept with CRLF (or lone CR) line ends, assembled through the file API, with a run in an included file
+    for ti in (0, 3, 4, 14):
+        text = tpls[ti]
+        nl = text.count("\n")
+        for eol in ("crlf", "cr"):
+            out.append({"id": f"t{ti:02d}/line-ends/{eol}/main", "fam": "eol", "tpl": ti, "eol": eol})
+            for a in range(1, nl - 1, 3):
+                b = min(nl - 1, a + 3)
+                lines = text.split("\n")[a:b]
+                depth = "\n".join(lines).count("{") - "\n".join(lines).count("}")
+                if depth == 0 and all(l.count("{") <= 1 for l in lines) and "\n".join(lines).find("}") >= "\n".join(lines).find("{"):
+                    out.append({"id": f"t{ti:02d}/line-ends/{eol}/include{a}-{b}", "fam": "eol", "tpl": ti, "eol": eol, "a": a, "b": b})
     if tier == "thorough":
         import random
 
@@ -219,6 +231,25 @@ def run(spec, cx):
     v = cx.int("v", 0, 0xFFFF)
     syms = {"v": v}
     base = _assemble(text, syms, {}, cx)
+    if spec["fam"] == "eol":
+        from harness.common import new_program
+
+        e = "\r\n" if spec["eol"] == "crlf" else "\r"
+        lines = text.split("\n")[:-1]
+        files = {}
+        if "a" in spec:
+            a, b = spec["a"], spec["b"]
+            files["inc.s"] = (e.join(lines[a:b]) + e).encode("utf-8")
+            lines = lines[:a] + [".include 'inc.s'"] + lines[b:]
+        files["main.s"] = (e.join(lines) + e).encode("utf-8")
+        p = new_program(syms=syms)
+        w = RecWriter()
+        with virtual_files(cx, files):
+            try:
+                rc = p.assemble_with_emitter("main.s", w)
+            except Exception as ex:  # noqa: BLE001
+                return (base, ("raise", type(ex).__name__))
+        return (base, ("ok", w.blocks, p.resolver.get_all_labels()) if rc == 0 else ("error",))
     if spec["fam"] == "include":
         lines = text.split("\n")[:-1]
         a, b = spec["a"], spec["b"]
